@@ -161,6 +161,8 @@ def sr (line : String) : String :=
             go rest r.1 (out :: acc)
           | none => (s, ["bad-op"])
         | ["c"] => go rest (Reader.close s) ("c:ok" :: acc)
+        -- the wrapped source's Close failed: the error is returned, the Reader is closed all the same
+        | ["c", "!s"] => go rest (Reader.close s) ("c:err" :: acc)
         | [] => go rest s acc
         | _ => (s, ["bad-op"])
     let r := go opsS (Reader.init frames) []
